@@ -34,6 +34,9 @@ pub enum OpKind {
     ActRelu,
     ActSigmoid,
     ActSoftmax,
+    /// `Array::from(vec![a, b, ..])`: nested construction from n same-shaped arrays, which are moved into the
+    /// call (the operand handles are consumed); the result is a plain array without a graph
+    Stack(usize),
     /// custom operations through `Array::op` with harness closures (same-shape operands)
     CAdd,
     CMul,
@@ -59,6 +62,7 @@ impl OpKind {
                 }
             }
             CFused3 => 3,
+            Stack(n) => *n,
             _ => 1,
         }
     }
@@ -87,6 +91,7 @@ impl OpKind {
             ActRelu => "activation::relu",
             ActSigmoid => "activation::sigmoid",
             ActSoftmax => "activation::softmax",
+            Stack(_) => "nested-construction",
             CAdd => "custom_add",
             CMul => "custom_mul",
             CScale(_) => "custom_scale",
@@ -99,7 +104,7 @@ impl OpKind {
     pub fn is_exact(&self) -> bool {
         use OpKind::*;
         match self {
-            Add | Sub | Mul | Neg | Sum(_) | Reshape(_) | Matmul { .. } | Conv { .. } | Relu | ActRelu | CAdd | CMul | CFused3 | CBAdd | CBMul => true,
+            Add | Sub | Mul | Neg | Sum(_) | Reshape(_) | Matmul { .. } | Conv { .. } | Relu | ActRelu | Stack(_) | CAdd | CMul | CFused3 | CBAdd | CBMul => true,
             ScaleR(k) | ScaleL(k) | Axpy(k) | CScale(k) => is_dyadic(*k),
             Powf(e) => *e == 1.0 || *e == 2.0 || *e == 3.0,
             _ => false,
@@ -111,7 +116,11 @@ impl OpKind {
     }
     /// operations that take their (single) operand by value
     pub fn consumes_operand(&self) -> bool {
-        matches!(self, OpKind::ActRelu | OpKind::ActSigmoid | OpKind::ActSoftmax)
+        matches!(self, OpKind::ActRelu | OpKind::ActSigmoid | OpKind::ActSoftmax | OpKind::Stack(_))
+    }
+    /// operations whose result never carries a graph, whatever the operands' flags
+    pub fn never_tracked(&self) -> bool {
+        matches!(self, OpKind::Stack(_))
     }
     pub fn is_custom(&self) -> bool {
         use OpKind::*;
